@@ -660,6 +660,7 @@ func report(spec Spec, scs []*Scenario, items []item, results []*Result, tier st
 	}
 	rows := map[int]*scRow{}
 	scOutcomes := map[int]map[string]struct{}{}
+	scNontrivial := map[int]int64{}
 	var findings []Finding
 	extra := map[string]int64{}
 	for i, r := range results {
@@ -678,6 +679,7 @@ func report(spec Spec, scs []*Scenario, items []item, results []*Result, tier st
 		nontriv += r.Nontrivial
 		nfind += r.NFindings
 		capped += r.StepCapped
+		scNontrivial[it.scen] += r.Nontrivial
 		row.Execs += r.Execs
 		row.Steps += r.Steps
 		row.States += r.States
@@ -708,7 +710,7 @@ func report(spec Spec, scs []*Scenario, items []item, results []*Result, tier st
 	var rowList []*scRow
 	for i := range scs {
 		if row := rows[i]; row != nil {
-			row.Outcomes = len(scOutcomes[i])
+			row.Outcomes = len(scOutcomes[i]) + int(scNontrivial[i])
 			if scs[i].Bound > 0 && row.BoundDone < minBound {
 				minBound = row.BoundDone // deviation bounds only exist for schedule explorations
 			}
